@@ -130,7 +130,7 @@ func (g *gcGen) ln(f string, a ...interface{}) {
 }
 
 const gcPrelude = `KEEP = {}
-local function inctx() return runtime.context().kill.cpu ~= nil end
+local function inctx() local k = runtime.context().kill return k.cpu ~= nil or k.millis ~= nil or k.memory ~= nil end
 local function mk(id, res)
   local o = setmetatable({id = id}, {__gc = function(o) emit("gc", o.id, inctx()) if res then KEEP[#KEEP + 1] = o end end})
   emit("mark", id)
@@ -154,7 +154,10 @@ func (g *gcGen) stmts(n int) {
 		if g.budget < 0 {
 			return
 		}
-		w := []int{5, 3, 3, 3, 3, 2, 2, 2, 1, 3}
+		w := []int{5, 3, 3, 3, 3, 2, 2, 2, 1, 3, 1}
+		if g.depth >= 1 {
+			w[10] = 0
+		}
 		if g.depth >= 2 {
 			w[6], w[7] = 0, 0
 		}
@@ -203,6 +206,27 @@ func (g *gcGen) stmts(n int) {
 			g.ind--
 			g.ln(`end).status)`)
 			g.depth--
+		case 10: // a time-limited context whose time runs out while a nested context is running
+			g.depth += 2
+			g.nctx++
+			k := g.nctx
+			g.nctx++
+			k2 := g.nctx
+			g.ln(`emit("ctx", %d, runtime.callcontext({kill={millis=50}}, function()`, k)
+			g.ind++
+			g.ln(`emit("enter", %d)`, k)
+			g.stmts(g.t.Choose(3))
+			g.ln(`emit("ctx", %d, runtime.callcontext({kill={cpu=100000}}, function()`, k2)
+			g.ind++
+			g.ln(`emit("enter", %d)`, k2)
+			g.stmts(1 + g.t.Choose(3))
+			g.ln(`tick(%d)`, 60+g.t.Choose(100))
+			g.ind--
+			g.ln(`end).status)`)
+			g.ln(`emit("after-inner")`)
+			g.ind--
+			g.ln(`end).status)`)
+			g.depth -= 2
 		case 9: // a value marked, then marked again later (new finalizer, new position in the order)
 			g.nid++
 			id := g.nid
@@ -267,6 +291,17 @@ func runGC(ctx *core.RunCtx) {
 		v := t.NewUserDataValue(&udVal{id: id, h: h}, meta)
 		return c.PushingNext1(t.Runtime, v), nil
 	}, 2, false)
+	clock := &core.Clock{}
+	clock.Advance(1_700_000_000_000)
+	core.InstallClock(clock)
+	defer core.InstallClock(nil)
+	h.Def("tick", func(t *rt.Thread, c *rt.GoCont) (rt.Cont, error) {
+		n, _ := c.Arg(0).TryInt()
+		clock.Advance(uint64(n))
+		ctx.SimMs += uint64(n)
+		ctx.Count("fault.clock-jump past a time limit", 1)
+		return c.Next(), nil
+	}, 1, false)
 	h.Def("collect", func(t *rt.Thread, c *rt.GoCont) (rt.Cont, error) {
 		k, _ := c.Arg(0).TryInt()
 		col.barrier()
